@@ -299,8 +299,52 @@ func genMixDt(prop string, emit func(string)) {
 	}
 }
 
+// destEW: reuse / incr destinations that themselves need an iterator (lazily transposed, sliced,
+// column-major) while the operands are plain, for one operation of each form
+func destEW(prop string, r *rng, emit func(string)) {
+	var ops []string
+	switch prop {
+	case "C07":
+		ops = []string{"bin:add:%d:%d:%s", "bins:mul:%d:3:left:%s", "bins:sub:%d:3:right:%s", "un:neg:%d:%s", "un:square:%d:%s", "cmp:lt:%d:%d:same:%s"}
+	case "C12":
+		ops = []string{"un:neg:%d:%s", "un:abs:%d:%s", "un:cube:%d:%s", "un:clamp.2.4:%d:%s"}
+	default:
+		return
+	}
+	for _, dt := range []string{"f64", "i", "f32"} {
+		for _, ld := range []string{"T", "slice", "stepslice", "cm"} {
+			for _, la := range []string{"rm", "T"} {
+				for _, o := range ops {
+					for _, m := range []string{"reuse", "incr"} {
+						if strings.HasPrefix(o, "cmp:") && m == "incr" {
+							continue
+						}
+						var p pb
+						preA, ia := source(r, la, []int{3, 2}, 1)
+						a := p.add(preA, ia)
+						preB, ib := source(r, "rm", []int{3, 2}, 2)
+						b := p.add(preB, ib)
+						preD, id := source(r, ld, []int{3, 2}, 50)
+						d := p.add(preD, id)
+						mode := fmt.Sprintf("%s.%d", m, d)
+						var opstr string
+						if strings.Count(o, "%d") == 2 {
+							opstr = fmt.Sprintf(o, a, b, mode)
+						} else {
+							opstr = fmt.Sprintf(o, a, mode)
+						}
+						p.ops = append(p.ops, opstr)
+						emit(fmt.Sprintf("prog %s %s", dt, p.prog()))
+					}
+				}
+			}
+		}
+	}
+}
+
 func genEW(prop, tier string, r *rng, emit func(string)) {
 	thorough := tier == "thorough"
+	destEW(prop, r, emit)
 	if prop == "C06" || prop == "C11" {
 		genMixDt(prop, emit)
 	}
